@@ -82,6 +82,7 @@ def evalStateless (tag : String) (a : List String) : Option (String × String) :
     -- does a frame of this total size pass the receive guard read from conn.Recv?
     let r := Wire.rejects Generated.connRecvGuard (natArg total) (natArg maxrx)
     some (if r then "lost" else "delivered", if r then "refused" else "fits")
+  | "opt.after", [_, _] => some ("received", "after")   -- a queue-length change never makes a connected peer's messages unreceivable
   | "mc.conflict", [_, k] => some (Macat.conflictVerdict (natArg k), "conflict")
   | "ws.enc", [h, b] =>
     -- WebSocket mapping: one binary frame (opcode 2) carrying protocol header then body
